@@ -251,7 +251,17 @@ SDK_SCENARIOS = [
     ("array-init-value-uniform", "int32", lambda c, q, v: c.new_array(2, init_values=[v, v])),
     ("future-add-literal", "int32", lambda c, q, v: c.new_array(1, init_values=[1]).get_future_index(0).add(v)),
     ("new-register-init", "int32", lambda c, q, v: c.builder.new_register(init_value=v)),
+    ("loop-stop", "int32", lambda c, q, v: _loop(c, q, stop=v)),
+    ("loop-start", "int32", lambda c, q, v: _loop(c, q, stop=v + 1, start=v)),
+    ("loop-step", "int32", lambda c, q, v: _loop(c, q, stop=v, step=v)),
+    ("if-literal", "int32", lambda c, q, v: c.if_eq(c.new_array(1, init_values=[1]).get_future_index(0), v, lambda cc: q.H())),
+    ("future-add-modulus", "int32", lambda c, q, v: c.new_array(1, init_values=[1]).get_future_index(0).add(1, mod=v)),
 ]
+
+
+def _loop(c, q, **kw):
+    with c.loop(**kw):
+        q.H()
 SDK_VALUES = {"imm8": [256, 257, 300, 511, 1000, 65536], "int32": [2 ** 31, 2 ** 32, 2 ** 32 + 7, -(2 ** 31) - 1, 2 ** 40]}
 
 
